@@ -1625,6 +1625,9 @@ func beginPhrasingMacro(exp Exporter, nospace bool) {
 	if !ctx.Inline && !scopeVerse(exp) {
 		exp.BeginParagraph()
 		reopenSpanningBlocks(exp)
+	} else if !ctx.Inline {
+		// in a verse list paragraphs are started by `.It' only
+		ctx.Error("found verse text outside of It scope")
 	}
 	ctx.parScope = true
 }
